@@ -62,16 +62,6 @@ def concretise(r, case, k=None):
     return [c]
 
 
-def enumerate_cases(o, cfg):
-    r = vlib.tlc(o.pid, FAMILY, "BroadcasterGen", cfg, workers=1, timeout=600)
-    if not r.ok:
-        raise vlib.Infra("case enumeration failed: %s\n%s" % (r.summary(), r.out[-2000:]))
-    cases = [json.loads(p)[0] for p in vlib.tagged_prints(r, "SCHED")]
-    if not cases or len(cases) != len({json.dumps(c, sort_keys=True) for c in cases}):
-        raise vlib.Infra("case enumeration: duplicate or no cases")
-    return cases
-
-
 def obj(kind, post=False, vi=False, known="no", blinded=False, cls="ok"):
     return {"kind": kind, "post": post, "vi": vi, "known": known, "blinded": blinded, "cls": cls, "lat": 0}
 
@@ -128,7 +118,7 @@ def mutators():
         return t[0]["duty"] in names
 
     def ret(t):
-        return t[-1] if t[-1].get("ev") == "Ret" else None
+        return t[-2] if len(t) >= 2 and t[-1].get("ev") == "End" and t[-2].get("ev") == "Ret" else None
 
     def other_endpoint(t):
         for e in t:
@@ -179,8 +169,8 @@ def mutators():
     def registration_submitted(t):
         if not duty(t, "builder_registration") or not ret(t):
             return None
-        t.insert(len(t) - 1, {"ev": "Submit", "call": 1, "api": "validator_registrations", "objs": [1], "vi": [0], "eq": [True],
-                              "t": t[-1]["t0"]})
+        t.insert(len(t) - 2, {"ev": "Submit", "call": 1, "api": "validator_registrations", "objs": [1], "vi": [0], "eq": [True],
+                              "t": ret(t)["t0"]})
         return t
 
     def prior_swallowed_elsewhere(t):
@@ -246,7 +236,8 @@ def mutators():
 
     def no_return(t):
         if ret(t):
-            return t[:-1]
+            del t[-2]
+            return t
         return None
 
     def nil_duty_errors(t):
@@ -289,24 +280,40 @@ def mutators():
 
 
 # ----------------------------------------------------------------------------------------------------------------------
+CONTROLS = (("BroadcasterMC_swallowall.cfg", "ResultRule", "'already known' error swallowed for every duty type"),
+            ("BroadcasterMC_instralways.cfg", "InstrRule", "instrumentDuty also on failure"),
+            ("BroadcasterMC_exitfirst.cfg", "ExitLast", "exit returns the first error"),
+            ("BroadcasterMC_finding_exit.cfg", "SuccessMeansAccepted",
+             "as coded: success reported although the node refused an exit (finding)"))
+
+
 def design_check(o, tier):
+    """Design check (as coded + the repaired exit variant), the controls that MUST be violated, and the enumeration of the
+    cases -- independent TLC runs, side by side (vlib.scratch is not thread-safe: the scratch dirs are made first)."""
+    from concurrent.futures import ThreadPoolExecutor
     thorough = tier == "thorough"
-    cfg = "BroadcasterMC.cfg" if thorough else "BroadcasterMC_quick.cfg"
-    r = vlib.tlc(o.pid, FAMILY, "BroadcasterMC", cfg, timeout=1500, workers=WORKERS)
-    vlib.require_mc_ok(r, cfg)
-    o.add_mc("Broadcaster/" + cfg[:-4], r)
-    r = vlib.tlc(o.pid, FAMILY, "BroadcasterMC", "BroadcasterMC_exitany.cfg", timeout=600, workers=WORKERS)
-    vlib.require_mc_ok(r, "BroadcasterMC_exitany.cfg")
-    o.add_mc("Broadcaster/BroadcasterMC_exitany", r)
-    for cfg, inv, what in (("BroadcasterMC_swallowall.cfg", "ResultRule", "'already known' error swallowed for every duty type"),
-                           ("BroadcasterMC_instralways.cfg", "InstrRule", "instrumentDuty also on failure"),
-                           ("BroadcasterMC_exitfirst.cfg", "ExitLast", "exit returns the first error"),
-                           ("BroadcasterMC_finding_exit.cfg", "SuccessMeansAccepted",
-                            "as coded: success reported although the node refused an exit (finding)")):
-        r = vlib.tlc(o.pid, FAMILY, "BroadcasterMC", cfg, timeout=600, workers=WORKERS)
+    main_cfg = "BroadcasterMC.cfg" if thorough else "BroadcasterMC_quick.cfg"
+    gen_cfg = "BroadcasterGen_thorough.cfg" if thorough else "BroadcasterGen.cfg"
+    jobs = [("BroadcasterMC", main_cfg, WORKERS), ("BroadcasterMC", "BroadcasterMC_exitany.cfg", 2)]
+    jobs += [("BroadcasterMC", c, 2) for c, _, _ in CONTROLS] + [("BroadcasterGen", gen_cfg, 1)]
+    dirs = [vlib.scratch(o.pid, FAMILY) for _ in jobs]
+    with ThreadPoolExecutor(max_workers=len(jobs)) as ex:
+        res = list(ex.map(lambda jd: vlib.tlc(o.pid, FAMILY, jd[0][0], jd[0][1], workers=jd[0][2], timeout=1500, sdir=jd[1]),
+                          zip(jobs, dirs)))
+    for (mod, cfg, _), r in zip(jobs[:2], res[:2]):
+        vlib.require_mc_ok(r, cfg)
+        o.add_mc("Broadcaster/" + cfg[:-4], r)
+    for (cfg, inv, what), r in zip(CONTROLS, res[2:]):
         if r.violation != inv:
             raise vlib.Infra("design-spec control failed: '%s' not caught by %s: %s" % (what, inv, r.summary()))
         o.selftests.append({"control": "Broadcaster spec variant '%s' violates %s" % (what, inv), "rejected_as_required": True})
+    g = res[-1]
+    if not g.ok:
+        raise vlib.Infra("case enumeration failed: %s\n%s" % (g.summary(), g.out[-2000:]))
+    cases = [json.loads(p)[0] for p in vlib.tagged_prints(g, "SCHED")]
+    if not cases or len(cases) != len({json.dumps(c, sort_keys=True) for c in cases}):
+        raise vlib.Infra("case enumeration: duplicate or no cases")
+    return cases
 
 
 WORKERS = int(os.environ.get("VERIF_TLC_WORKERS", "0")) or None
@@ -316,27 +323,24 @@ def stage(o, tier, seed):
     """Run the Broadcaster family as an extra stage of an existing check."""
     t0 = time.time()
     thorough = tier == "thorough"
-    design_check(o, tier)
-    cases = enumerate_cases(o, "BroadcasterGen_thorough.cfg" if thorough else "BroadcasterGen.cfg")
+    cases = design_check(o, tier)
     r = vlib.rng(seed, "bcast-conc")
     enum = [concretise(r, c) for c in cases]
     if thorough:
         enum += [concretise(r, c) for c in cases for _ in range(2)]
     rnd = random_cases(seed, 6000 if thorough else 700)
     o.extra["bcast_cases_enumerated_by_tlc"] = len(cases)
-    kw = dict(chunk=400, exec_timeout=900, tv_timeout=600)
-    nself = len(o.selftests)
-    vlib.conformance(o, FAMILY, TRACE, TCFG, PKG, enum, tag="bcast_enum", **kw)
-    vlib.conformance(o, FAMILY, TRACE, TCFG, PKG, rnd, tag="bcast_rnd", **kw)
-    tr = []
-    for tag in ("bcast_enum", "bcast_rnd"):
-        tr += vlib.split_traces(vlib.read_ndjson(os.path.join(vlib.workdir(o.pid), "trace_%s.ndjson" % tag)))
+    sch = enum + rnd
+    vlib.conformance(o, FAMILY, TRACE, TCFG, PKG, sch, tag="bcast", chunk=max(250, len(sch) * 2 // max(4, min(vlib.NCPU, 12))),
+                     exec_timeout=900, tv_timeout=600)
+    tr = vlib.split_traces(vlib.read_ndjson(os.path.join(vlib.workdir(o.pid), "trace_bcast.ndjson")))
     if not o.violations:
         ms = mutators()
+        nself = len(o.selftests)
         vlib.binding_selftest(o, FAMILY, TRACE, TCFG, tr, ms)
-        if len(o.selftests) - nself < 4 + len(ms):
+        if len(o.selftests) - nself < len(ms):
             raise vlib.Infra("Broadcaster binding self-test: some negative control found no applicable trace")
-    rets = [t[-1] for t in tr if t and t[-1].get("ev") == "Ret"]
+    rets = [t[-2] for t in tr if len(t) >= 2 and t[-2].get("ev") == "Ret"]
     o.extra["bcast_calls"] = len(tr)
     o.extra["bcast_calls_instrumented"] = sum(1 for e in rets if e["instr"])
     o.extra["bcast_resolve_runs"] = sum(1 for t in tr for e in t if e.get("ev") == "Resolve")
